@@ -1,7 +1,7 @@
 (** C02 - captured versions (clones and persisted roots) never change afterwards.
     Statements only; proofs are in Hist.v / Persist.v. *)
 From Coq Require Import List NArith ZArith Bool.
-From Mast Require Import Prim Key Tree KeyOrder Codec Store Diff World Erase Build Spec Canon Level Inv Hist Persist.
+From Mast Require Import Prim Key Tree KeyOrder Codec Store Diff World Erase Build Spec Canon Level Inv Hist Persist Reload WorldInv VersionsHist.
 Import ListNotations.
 
 (** the operation a step is applied to *)
@@ -48,7 +48,46 @@ Theorem C02_persist_keeps_contents : forall bf f m l, kcanon bf m l ->
   oks (make_root f m) (fun r => kcanon bf (snd r) l /\ r_size (fst r) = N.of_nat (length l)).
 Proof. exact k_make_root_ok. Qed.
 
+(** The property over whole histories (any number of trees and stores, either node format, persists
+    and reloads; side conditions [conds]): a tree captured at some point - a clone, a loaded tree, any
+    tree - is observed with exactly the entries it had then after ANY continuation that does not itself
+    write that tree (operations on the tree it was cloned from, on other clones, persists into the shared
+    store, reloads ... are all allowed) ... *)
+Theorem C02_captured_tree_never_changes : forall ops1 ops2 t x,
+  conds empty_world ([], []) (ops1 ++ ops2 ++ [OIter t]) ->
+  aget (fst (awrun2 ([], []) ops1)) t = Some x ->
+  Forall (fun o => ttarget o <> Some t) ops2 ->
+  last (map (fun y => pobs (fst y)) (run empty_world (ops1 ++ ops2 ++ [OIter t]))) BOk = BList (at_l x).
+Proof. exact captured_tree_never_changes. Qed.
+
+(** ... and a persisted root kept by the caller loads, after any continuation that does not overwrite
+    the root record itself, into a tree with exactly the entries it was made from *)
+Theorem C02_captured_root_never_changes : forall ops1 ops2 r x t',
+  conds empty_world ([], []) (ops1 ++ ops2 ++ [OLoad r t' (at_s x) (at_kind x); OIter t']) ->
+  aget (snd (awrun2 ([], []) ops1)) r = Some x ->
+  Forall (fun o => rtarget o <> Some r) ops2 ->
+  last (map (fun y => pobs (fst y)) (run empty_world (ops1 ++ ops2 ++ [OLoad r t' (at_s x) (at_kind x); OIter t']))) BOk = BList (at_l x).
+Proof. exact captured_root_never_changes. Qed.
+
+(** non-vacuity: a clone and a persisted root are captured; the original is then modified, persisted
+    again and reloaded; the clone and the old root still show the captured entries *)
+Local Open Scope N_scope.
+Definition ex02_a : list op := [ONew 0 0 2 None 1; OIns 0 (KUint 1) [49]; OIns 0 (KUint 2) [50]; OIns 0 (KUint 4) [51]; OClone 0 1; OMakeRoot 0 0].
+Definition ex02_b : list op := [OIns 0 (KUint 8) [52]; ODel 0 (KUint 1) [49]; OMakeRoot 0 1; OLoad 1 2 0 1; OIns 2 (KUint 3) [53]; OMakeRoot 2 2].
+Example C02_example :
+  conds empty_world ([], []) (ex02_a ++ ex02_b ++ [OIter 1]) /\
+  conds empty_world ([], []) (ex02_a ++ ex02_b ++ [OLoad 0 7 0 1; OIter 7]) /\
+  Forall (fun o => ttarget o <> Some 1) ex02_b /\ Forall (fun o => rtarget o <> Some 0) ex02_b /\
+  option_map at_l (aget (fst (awrun2 ([], []) ex02_a)) 1) = Some [(KUint 1, [49]); (KUint 2, [50]); (KUint 4, [51])] /\
+  option_map at_l (aget (snd (awrun2 ([], []) ex02_a)) 0) = Some [(KUint 1, [49]); (KUint 2, [50]); (KUint 4, [51])].
+Proof.
+  split; [apply condsb_ok; vm_compute; reflexivity|]. split; [apply condsb_ok; vm_compute; reflexivity|].
+  split; [repeat constructor; discriminate|]. split; [repeat constructor; discriminate|]. vm_compute. split; reflexivity.
+Qed.
+
 Print Assumptions C02_frame.
 Print Assumptions C02_captured_stable.
 Print Assumptions C02_store_monotone.
 Print Assumptions C02_persist_keeps_contents.
+Print Assumptions C02_captured_tree_never_changes.
+Print Assumptions C02_captured_root_never_changes.
